@@ -172,6 +172,28 @@ func (s *refusingSink) CheckCanRecord() error {
 	return fmt.Errorf("scripted: not enough disk space")
 }
 
+// flakyWriteSink accepts recordings; its writes fail with alternating error texts.
+type flakyWriteSink struct {
+	writes, failsA, failsB int
+	period                 int
+}
+
+func (s *flakyWriteSink) StopRecording() error                          { return nil }
+func (s *flakyWriteSink) StartRecording(*cptvframe.Frame, uint16) error { return nil }
+func (s *flakyWriteSink) CheckCanRecord() error                         { return nil }
+func (s *flakyWriteSink) WriteFrame(*cptvframe.Frame) error {
+	s.writes++
+	if s.period > 0 && s.writes%s.period == 0 {
+		return nil // an occasional write that succeeds
+	}
+	if (s.failsA+s.failsB)%2 == 0 {
+		s.failsA++
+		return fmt.Errorf("verif-disk-A: no space left on device")
+	}
+	s.failsB++
+	return fmt.Errorf("verif-disk-B: input/output error")
+}
+
 func TestVerif_C20Processor(t *testing.T) {
 	c := vStart(t, "C20", "TestVerif_C20Processor")
 	defer c.Finish()
@@ -227,6 +249,27 @@ func TestVerif_C20Processor(t *testing.T) {
 				c.Violation("recurring-condition-logged-per-frame", "", fmt.Sprintf("%d refused starts within %v produced %d log lines (at most %d allowed)", sink.checks, elapsed, lines, maxLines))
 				return
 			}
+			// distinct messages are never lost: storage whose writes fail with two alternating error
+			// texts inside recordings - every failure differs from the line printed before it
+			buf.Reset()
+			fs := &flakyWriteSink{period: int(idx%3) * 7}
+			mp2 := NewMotionProcessor(nil, mc, rc, &config.Location{}, nil, fs, cam, nil, new(recorder.NoWriteRecorder))
+			for i := 0; i < 200; i++ {
+				level = 8000 - level
+				f.Pix[1][1] = level
+				f.Status = cptvframe.Telemetry{TimeOn: 2*time.Hour + time.Duration(i)*time.Second, FrameCount: i}
+				mp2.ProcessFrame(f)
+			}
+			gotA, gotB := strings.Count(buf.String(), "verif-disk-A"), strings.Count(buf.String(), "verif-disk-B")
+			if fs.failsA+fs.failsB < 50 {
+				c.Inconclusive(fmt.Sprintf("only %d failing writes in 200 motion frames", fs.failsA+fs.failsB))
+				return
+			}
+			if gotA != fs.failsA || gotB != fs.failsB {
+				c.Violation("distinct-message-lost", "alternating write failures inside a recording", fmt.Sprintf("%d writes failed with text A and %d with text B, strictly alternating; the log holds %d and %d such lines", fs.failsA, fs.failsB, gotA, gotB))
+				return
+			}
+			c.Count("alternating_write_failures_logged", int64(gotA+gotB))
 			c.Count("refused_starts", int64(sink.checks))
 			c.Count("log_lines", int64(lines))
 			c.Nontrivial(vNewHash().U64(uint64(idx)).Int(nframes).Sum())
